@@ -295,7 +295,29 @@ def check(an, rep, tier):
             fake = ast.FunctionDef(name='step', args=None, body=[lp],
                                    decorator_list=[])
             bad = None
+            maybe = False
             n_paths = 0
+            local_defs = {n_.name for n_ in ast.walk(fn_.node)
+                          if isinstance(n_, ast.FunctionDef) and
+                          n_ is not fn_.node}
+
+            def may_refresh(st):
+                # a closure / private helper called after the update, or a
+                # store into some other indexed slot, may be the refresh in
+                # another spelling: not decided here
+                for c in ast.walk(st):
+                    if isinstance(c, ast.Call):
+                        nm = (prog.dotted(c.func) or '').split('.')[-1]
+                        if nm in local_defs or (nm.startswith('_') and
+                                                not is_update(c)):
+                            return True
+                if isinstance(st, (ast.Assign, ast.AugAssign)):
+                    tg = st.targets[0] if isinstance(st, ast.Assign) \
+                        else st.target
+                    if isinstance(tg, ast.Subscript) and \
+                            not is_update(st):
+                        return True
+                return False
             for path in paths.paths(fake):
                 evs = [e for e in path if e.kind == 'stmt']
                 if not any(e.kind == 'loop' and e.pol for e in path):
@@ -308,12 +330,16 @@ def check(an, rep, tier):
                     continue
                 after = evs[upd[-1]:]
                 if not any(is_refresh(e.node, lp.target.id) for e in after):
-                    bad = path
+                    if any(may_refresh(e.node) for e in after[1:]):
+                        maybe = True
+                    else:
+                        bad = path
             rep.add('P-refresh', qual_, 'sweep loop over %s: the next '
                     'interface is refreshed after the core update on every '
                     'path (%d paths)' % (paths.src(fn_.module, lp.iter),
                                          n_paths),
-                    'ok' if bad is None else 'violation',
+                    'violation' if bad is not None else (
+                        'unknown' if maybe else 'ok'),
                     '' if bad is None else 'a path through the sweep step '
                     'updates the core but leaves the loop body without '
                     'recomputing the interface of the next core (tests taken: '
